@@ -32,5 +32,8 @@ class SP(MultiQueueScheduler):
                     print(packet)
                     packet.priorities[self.flow2class(packet.flow_id)] = prio
                     yield env.process(self.send_packet(packet))
+                    # Rescan from the highest priority: a more urgent packet
+                    # may be waiting by now.
+                    break
             if self.total_packets == 0:
                 yield self.packets_available.get()
